@@ -771,12 +771,12 @@ func (ds *c13DS) faultFor(id c13Key) (int, error) {
 		return 0, nil
 	}
 	if f == c13FaultWrapsNF {
-		ds.injected.wrapped = ds.notFoundErr(id)
-		if ds.mode == c13DSTyped {
-			// the typed mode recognises wrapped not-found errors, so wrap something that only
-			// looks alike
-			ds.injected.wrapped = errors.New(ds.injected.wrapped.Error())
-		}
+		// wrap something that only LOOKS like the datasource's not-found error (same text,
+		// another value). Wrapping the real one would demand that a NotFound test ignores
+		// wrapped not-found errors, which the property does not say: a library whose NotFound
+		// uses errors.Is is as right as one that compares identity (false alarm on the
+		// behaviour-preserving patch core3-5, corrected).
+		ds.injected.wrapped = errors.New(ds.notFoundErr(id).Error())
 	}
 	return f, ds.injected
 }
